@@ -152,5 +152,7 @@ def run(report):
     report.extra["paths"] = npaths
     from . import c09_names
     c09_names.run(report)
+    from ..contracts import audit
+    audit.run(report)
     report.trust("CPython 3.12 (subset of DESIGN 3.A)", "z3 5.1 arrays/strings", "SymPy 1.14 structural equality of Symbol/Function/Quantity by (class, name, assumptions)")
     report.assume(*[f"{k}: {v}" for k, v in FE.ASSUMED.items()])
